@@ -69,3 +69,18 @@ Theorem c05_chain_rule_is_source :
     forall refs : Z, gtrue (upd (upd env0 "prev" 1%Z) "prev.refs" refs) c = Some (Z.ltb 2 refs).
 Proof. exact Decisions.rootcas_chain_decision. Qed.
 Print Assumptions c05_chain_rule_is_source.
+
+(* a reader's pin is one increment, its release one decrement that frees only the last reference *)
+Theorem c05_decref_is_source :
+  forall r : Z,
+  exists rest, body "Collection.rootDecRefUnlocked" = SIncDec (GVar "r.refs") false :: SIf [] (GBin ">" (GVar "r.refs") (GInt 0)) [SReturn []] [] :: rest /\
+  (Z.lt 1 r -> gexec 10 (upd env0 "r.refs" r) (firstn 2 (body "Collection.rootDecRefUnlocked")) = RRet []) /\
+  (r = 1%Z -> exists rho, gexec 10 (upd env0 "r.refs" r) (firstn 2 (body "Collection.rootDecRefUnlocked")) = RFall rho /\ rho "r.refs" = Some 0%Z).
+Proof. exact Decisions.decref_decision. Qed.
+Print Assumptions c05_decref_is_source.
+
+Theorem c05_addref_is_source :
+  exists pre post, body "Collection.rootAddRef" = pre ++ SIncDec (GVar "t.root.refs") true :: post /\
+                   Forall (fun s => match s with SIncDec _ _ | SAssign _ _ _ => False | _ => True end) (pre ++ post).
+Proof. exact Decisions.addref_is_increment. Qed.
+Print Assumptions c05_addref_is_source.
